@@ -949,6 +949,29 @@ func (ex *Exec) evCall(x *SCall, env *Env) Val {
 		}
 		h := ex.getHeap(st, heapArrName(a.Ty.Underlying().(*types.Slice).Elem()), ArrS(SInt, ArrS(SInt, es)))
 		return Val{T: MkSeq(ex.D.Fn("seqshift", ArrS(SInt, SInt), Select(h, SlBase(a.T)), SlOff(a.T)), SlLen(a.T)), Ty: tySeq}
+	case "sidset", "sidsetn":
+		// the set of string identities of the elements of a []string (or of
+		// its first n elements): sidsetf(row, lo, hi) = { sid(row[j]) | lo <= j < hi }
+		a := arg(0)
+		if a.T.S != SSlice || sortOf(a.Ty.Underlying().(*types.Slice).Elem()) != SStr {
+			ex.specFail("%s: not a []string", x.Fn)
+		}
+		ex.needSid = true
+		h := ex.getHeap(st, heapArrName(a.Ty.Underlying().(*types.Slice).Elem()), ArrS(SInt, ArrS(SInt, SStr)))
+		n := SlLen(a.T)
+		if x.Fn == "sidsetn" {
+			n = arg(1).T
+		}
+		return Val{T: ex.D.Fn("sidsetf", ArrS(SInt, SBool), Select(h, SlBase(a.T)), SlOff(a.T), Add(SlOff(a.T), n)), Ty: tySet}
+	case "joinsp":
+		// joinsp(s, lo, hi, sep): s[lo] + sep + s[lo+1] + ... + s[hi-1]
+		a := arg(0)
+		if a.T.S != SSlice || sortOf(a.Ty.Underlying().(*types.Slice).Elem()) != SStr {
+			ex.specFail("joinsp: not a []string")
+		}
+		ex.needSid = true
+		h := ex.getHeap(st, heapArrName(a.Ty.Underlying().(*types.Slice).Elem()), ArrS(SInt, ArrS(SInt, SStr)))
+		return Val{T: ex.D.Fn("joinspf", SStr, Select(h, SlBase(a.T)), Add(SlOff(a.T), arg(1).T), Add(SlOff(a.T), arg(2).T), arg(3).T), Ty: tyStr}
 	case "emptyseq":
 		return Val{T: MkSeq(ex.V.constArr(ex, ArrS(SInt, SInt), IntLit(0)), IntLit(0)), Ty: tySeq}
 	case "emptyset":
